@@ -3,7 +3,7 @@ CONSTANTS
   PcodeNs = {0, 99}
   Okinds = {0, 1}
   Onodes = {0, 2}
-  BlobIds = {"nil", "one"}
+  BlobIds = {"one"}
   MaxItems = 3
   Marker = 9
   NoStamp = {}
